@@ -320,7 +320,7 @@ PROPS = {
                         "AES-CBC+HMAC key types are not creatable through kms.Create and are not driven"],
     },
     "C16": {
-        "lean_files": ["AriesVerif/C16/Model.lean", "AriesVerif/C16/Props.lean", "AriesVerif/C16/Drv.lean"],
+        "lean_files": ["AriesVerif/C16/Model.lean", "AriesVerif/C16/Props.lean", "AriesVerif/C16/RelId.lean", "AriesVerif/C16/Drv.lean"],
         "lake_targets": ["AriesVerif"],
         "classify": lambda inp, out: ["kind:" + inp.split("|")[0], "flags:" + inp.split("|")[1], "out:" + out.split("|")[0][:12],
                                       "size:" + ("S" if len(inp) < 600 else "M" if len(inp) < 2000 else "L")],
